@@ -29,8 +29,12 @@ def run_property(prop, tier, repo, seed):
     try:
         mod.run(ctx)
     except AnalysisError as exc:
-        # a rule could not be carried out; obligations already evaluated stay valid
-        if not ctx.failures():
+        # a rule could not be carried out; obligations already evaluated stay valid -- but a
+        # failure that is only a listed known finding is no reason to call the run decided
+        from nvstat.core import load_known
+        known = {(k.get('rule'), k.get('construct')) for k in load_known()
+                 if k.get('property') == prop and k.get('status') == 'known'}
+        if not [o for o in ctx.failures() if (o.rule, o.construct) not in known]:
             raise
         ctx.note('analysis incomplete: %s' % exc)
         print('NOTE property=%s analysis incomplete (%s); reporting the violations found so far'
@@ -38,8 +42,12 @@ def run_property(prop, tier, repo, seed):
         return finish(ctx, mod.LEVEL_TEXT)
     if not ctx.obligations:
         raise AnalysisError('no obligation was generated for %s' % prop)
-    if ctx.floor_failures and not ctx.failures():
-        raise AnalysisError('; '.join(ctx.floor_failures))
+    if ctx.floor_failures:
+        from nvstat.core import load_known
+        known = {(k.get('rule'), k.get('construct')) for k in load_known()
+                 if k.get('property') == prop and k.get('status') == 'known'}
+        if not [o for o in ctx.failures() if (o.rule, o.construct) not in known]:
+            raise AnalysisError('; '.join(ctx.floor_failures))
     if tier == 'thorough':
         try:
             from nvstat import thorough
